@@ -30,8 +30,7 @@ static const long EVAL_N[][3] = {{0, 0, 0}, {1, -2, 0}, {-1, 0, -1}, {2, 1, 2}, 
 static const double EVAL_Z[][6] = {{0.3, 1.1, -0.2, 0.7, 0.45, -1.3}, {-0.6, 2.3, 0.15, -0.9, 0.8, 1.9}};
 
 // the documented workflow, as one rank executes it
-static void workflow(const Workload& w, Obs& obs, std::map<std::string, long>* probes) {
-    mpi::communicator comm;
+static void workflow(const Workload& w, const mpi::communicator& comm, Obs& obs, std::map<std::string, long>* probes) {
     const bool root = comm.rank() == 0;
     models::Stage0 s0(w.model, w.mp, w.nosym);
     s0.H->prepare(comm);
@@ -183,6 +182,7 @@ static hc::Outcome run_one(hc::RunSpec& rs) {
         c.def("calls", cs);
     }
     c.def("hrep", r.pct(80) ? 0 : r.range(1, 15));
+    c.def("G", (P >= 2 && r.pct(15)) ? r.range(2, 3) : 1);
     int nm = models::nmodes(model);
     int K = (c.i("wf") == 0) ? r.range(1, 2) : r.range(1, nm == 2 ? 6 : 5);
     { std::string q; std::set<std::string> seen; for (int k = 0; k < K; k++) { std::string s = models::rand_quad(r, nm); if (c.i("wf") == 1 && !seen.insert(s).second) continue; if (!q.empty()) q += ','; q += s; } c.def("quads", q); }
@@ -201,35 +201,57 @@ static hc::Outcome run_one(hc::RunSpec& rs) {
     c.set("mp", w.mp); c.set("nosym", w.nosym); c.set("beta", (long)w.beta); c.set("wf", w.wf); c.set("hrep", w.hrep);
     if (c.s("freqs").empty()) c.set("freqs", "-");
     w.freqs = c.s("freqs") == "-" ? "" : c.s("freqs");
-    std::string wkey = "model=" + std::to_string(w.model) + " mp=" + std::to_string(w.mp) + " nosym=" + std::to_string(w.nosym) + " beta=" + std::to_string((int)w.beta) + " wf=" + std::to_string(w.wf) +
-                       " calls=" + c.s("calls") + " hrep=" + std::to_string(w.hrep) + " quads=" + c.s("quads") + " freqs=" + c.s("freqs");
-
+    // ---- groups: the library is handed a communicator; with G > 1 the world is split and every group runs the workflow on
+    // its own sub-communicator with its OWN variant of the workload (group g drops the last g quadruples and repeats other
+    // calls), so that the groups execute different numbers of collectives: anything that synchronises on the world instead
+    // of on the communicator it was given pairs up wrongly
+    int G = (int)c.i("G", 1); if (G < 1) G = 1; if (G > P) G = P; if (G > 3) G = 3; c.set("G", G);
     hc::announce(rs);
     hc::Outcome oc;
-    // ---- reference: 1 rank, 1 thread, default schedule
-    if (!g_refcache.count(wkey)) {
-        sim::Options ro; ro.nranks = 1; ro.seed = 0; ro.omp_threads = 1;
-        Obs ref; std::string refexc;
-        sim::World rw(ro);
-        sim::Result rr = rw.run([&](int) { workflow(w, ref, 0); });
-        if (rr.verdict != "ok") {
-            // the reference itself fails: the workload is outside the supported workflow at P=1 already -> report as such (not a parallel issue)
-            oc.verdict = "reference-" + rr.verdict; oc.detail = "the 1-rank/1-thread run itself ended with: " + rr.detail; oc.nworlds = 1;
-            return oc;
+    std::vector<Workload> gw(G, w);
+    std::vector<const Obs*> gref(G, nullptr);
+    for (int g = 0; g < G; g++) {
+        Workload& x = gw[g];
+        for (int k = 0; k < g && x.quads.size() > 1; k++) x.quads.pop_back();
+        if (g) x.hrep = (w.hrep + 3 * g) & 15;
+        std::string qs; for (auto& q : x.quads) { if (!qs.empty()) qs += ','; qs += q; }
+        std::string wkey = "model=" + std::to_string(x.model) + " mp=" + std::to_string(x.mp) + " nosym=" + std::to_string(x.nosym) + " beta=" + std::to_string((int)x.beta) + " wf=" + std::to_string(x.wf) +
+                           " calls=" + c.s("calls") + " hrep=" + std::to_string(x.hrep) + " quads=" + qs + " freqs=" + c.s("freqs");
+        // ---- reference: 1 rank, 1 thread, default schedule
+        if (!g_refcache.count(wkey)) {
+            sim::Options ro; ro.nranks = 1; ro.seed = 0; ro.omp_threads = 1;
+            Obs ref;
+            sim::World rw(ro);
+            sim::Result rr = rw.run([&](int) { mpi::communicator world; workflow(x, world, ref, 0); });
+            oc.nworlds++;
+            if (rr.verdict != "ok") {
+                // the reference itself fails: the workload is outside the supported workflow at P=1 already -> report as such (not a parallel issue)
+                oc.verdict = "reference-" + rr.verdict; oc.detail = "the 1-rank/1-thread run itself ended with: " + rr.detail;
+                return oc;
+            }
+            if (g_reforder.size() >= 32) { g_refcache.erase(g_reforder.front()); g_reforder.erase(g_reforder.begin()); }
+            g_refcache[wkey] = ref; g_reforder.push_back(wkey);
         }
-        if (g_reforder.size() >= 32) { g_refcache.erase(g_reforder.front()); g_reforder.erase(g_reforder.begin()); }
-        g_refcache[wkey] = ref; g_reforder.push_back(wkey);
+        gref[g] = &g_refcache[wkey];
     }
-    const Obs& ref = g_refcache[wkey];
+    std::vector<Obs> refcopy; for (int g = 0; g < G; g++) refcopy.push_back(*gref[g]);   // the cache may evict while later groups are computed
 
     sim::Options o = hc::sim_options(c, P, rs.seed);
     o.replay = rs.replay; o.replay_choices = rs.choices; o.keep_choices = rs.want_choices;
     std::vector<Obs> obs(P);
     std::vector<std::map<std::string, long> > probes(P);
+    std::vector<int> group_of(P, 0), grank(P, 0);
     sim::Result res;
     {
         sim::World wd(o);
-        res = wd.run([&](int rank) { workflow(w, obs[rank], &probes[rank]); });
+        res = wd.run([&](int rank) {
+            mpi::communicator world;
+            if (G == 1) { workflow(gw[0], world, obs[rank], &probes[rank]); return; }
+            int g = rank * G / P;
+            mpi::communicator sub = world.split(g);
+            group_of[rank] = g; grank[rank] = sub.rank();
+            workflow(gw[g], sub, obs[rank], &probes[rank]);
+        });
         if (rs.want_trace || res.verdict != "ok") oc.trace = wd.format_trace(rs.want_trace ? 20000 : 300);
         // coverage signature: which rank received which job (sequence of Work messages sent by a master)
         std::ostringstream sig;
@@ -240,10 +262,11 @@ static hc::Outcome run_one(hc::RunSpec& rs) {
     oc.choices = res.choices;
     if (res.verdict == "ok") {
         for (int p = 0; p < P && oc.verdict == "ok"; p++) {
-            std::string d = compare(ref, obs[p], p);
-            if (!d.empty()) { oc.verdict = violation_class(d); oc.detail = d; }
+            std::string d = compare(refcopy[group_of[p]], obs[p], G == 1 ? p : grank[p]);
+            if (!d.empty()) { oc.verdict = violation_class(d); oc.detail = (G > 1 ? "group " + std::to_string(group_of[p]) + ", world rank " + std::to_string(p) + " = " : "") + d; }
         }
     }
+    if (G > 1) oc.probes["workflow_on_subcommunicators"]++;
     for (int p = 0; p < P; p++) for (auto& kv : probes[p]) oc.probes[kv.first] += kv.second;
     if (res.st.omp_max_team > 1 && res.st.omp_regions) oc.probes["omp_team_2+"]++;
     if (res.st.reduce_shuffled) oc.probes["reduction_order_shuffled"]++;
